@@ -67,6 +67,29 @@ func enumGoTypes() (enums []reflect.Type, masks []reflect.Type) {
 	return
 }
 
+// checkSep renders a mask value with the caller's separator and reads the rendering back flag by flag.
+func checkSep[T ~int32](tag int, v T, sep string) error {
+	txt := ttlv.BitmaskStr(v, sep)
+	var got int32
+	if txt != "" {
+		for _, part := range strings.Split(txt, sep) {
+			if bit, err := ttlv.BitmaskByStr(tag, part); err == nil {
+				got |= bit
+			} else if strings.HasPrefix(part, "0x") {
+				var x uint32
+				fmt.Sscanf(part, "0x%X", &x)
+				got |= int32(x)
+			} else {
+				return fmt.Errorf("BitmaskStr(0x%X, %q) = %q: %q is no flag name of mask 0x%06X", int32(v), sep, txt, part, tag)
+			}
+		}
+	}
+	if got != int32(v) {
+		return fmt.Errorf("BitmaskStr(0x%X, %q) = %q, which reads back as 0x%X", int32(v), sep, txt, got)
+	}
+	return nil
+}
+
 type regFail struct {
 	Sig string `json:"sig"`
 	Msg string `json:"msg"`
@@ -329,6 +352,22 @@ func TestC17Registry(t *testing.T) {
 			}
 		}
 	}
+	// BitmaskStr with separators of the caller's choosing, before and after the text forms below are produced: every
+	// rendering must consist of the flags' own names joined by exactly that separator (whatever was rendered before)
+	sepCheck := func(when string) {
+		for _, sep := range []string{", ", "+", " | ", ";"} {
+			for _, v := range []int32{0, 1, 5, 0xC, 0x000FFFFF, 0x7} {
+				if err := checkSep(pins.Tags["CryptographicUsageMask"], kmip.CryptographicUsageMask(v), sep); err != nil {
+					fail("mask-separator", "%s: %v", when, err)
+				}
+				if err := checkSep(pins.Tags["StorageStatusMask"], kmip.StorageStatusMask(v&3), sep); err != nil {
+					fail("mask-separator", "%s: %v", when, err)
+				}
+				rec.Eval(2)
+			}
+		}
+	}
+	sepCheck("before the text forms")
 	// typed masks: text form (MarshalText / UnmarshalText) of every flag, of all flags, of none, into fresh and reused destinations
 	for _, mt := range mts {
 		tag, ok := pins.Tags[mt.Name()]
@@ -373,6 +412,7 @@ func TestC17Registry(t *testing.T) {
 			}
 		}
 	}
+	sepCheck("after the text forms")
 	rec.Set("tags_registered", len(pins.Tags))
 	rec.Set("enum_entries", enumEntries)
 	rec.Set("mask_flags", maskEntries)
